@@ -23,7 +23,7 @@ func il(v int64) ast.Node                        { return ast.IntLit{V: v} }
 // the call expression rendering its result.
 func pureFunction(r *core.Rng) (defs []ast.Node, callExpr ast.Node, kind string) {
 	deep := ast.Assign{Name: "pdeep", Value: ast.FuncLit{Params: []string{"n"}, Body: ast.If{Cond: ast.Binary{Op: "<=", L: nm("n"), R: il(0)}, Then: il(0), Else: ast.Binary{Op: "+", L: il(1), R: icall("pdeep", ast.Binary{Op: "-", L: nm("n"), R: il(1)})}}}}
-	switch r.Intn(6) {
+	switch r.Intn(8) {
 	case 0, 1: // random typed pure function
 		kind = "typed"
 		o := gen.DefaultOpts()
@@ -77,6 +77,35 @@ func pureFunction(r *core.Rng) (defs []ast.Node, callExpr ast.Node, kind string)
 			ast.ArrayLit{Elems: []ast.Node{nm("acc"), nm(wideName(0)), nm(last)}})
 		defs = []ast.Node{ast.Assign{Name: "pf", Value: ast.FuncLit{Params: []string{"n"}, Body: ast.Block{Stmts: ss}}}}
 		return defs, toa(icall("pf", il(int64(r.Intn(9))))), kind
+	case 6: // closure created before and read after a call of a very wide function (its frame straddles allocation boundaries)
+		kind = "closure-around-wide-call"
+		w := []int{129, 150, 200, 257, 300}[r.Intn(5)]
+		var ws []ast.Node
+		for i := 0; i < w; i++ {
+			ws = append(ws, ast.Assign{Name: wideName(i), Value: ast.Binary{Op: "+", L: nm("q"), R: il(int64(i))}})
+		}
+		ws = append(ws, ast.Binary{Op: "+", L: nm(wideName(0)), R: nm(wideName(w - 1))})
+		body := ast.Block{Stmts: []ast.Node{
+			ast.Assign{Name: "x", Value: nm("n")},
+			ast.Assign{Name: "g", Value: ast.FuncLit{Body: ast.Binary{Op: "+", L: nm("x"), R: il(1)}}},
+			ast.Assign{Name: "y", Value: icall("pwide", il(int64(r.Intn(9))))},
+			ast.Assign{Name: "x", Value: ast.Binary{Op: "+", L: nm("x"), R: nm("y")}},
+			ast.ArrayLit{Elems: []ast.Node{icall("g"), nm("x")}},
+		}}
+		defs = []ast.Node{ast.Assign{Name: "pwide", Value: ast.FuncLit{Params: []string{"q"}, Body: ast.Block{Stmts: ws}}}, ast.Assign{Name: "pf", Value: ast.FuncLit{Params: []string{"n"}, Body: body}}}
+		return defs, toa(icall("pf", il(int64(r.Intn(50))))), kind
+	case 5: // three zipped generators, one of them a closure generator
+		kind = "three-way-zip"
+		body := ast.Block{Stmts: []ast.Node{
+			ast.Assign{Name: "k", Value: ast.Binary{Op: "+", L: nm("n"), R: il(10)}},
+			ast.Assign{Name: "gen", Value: ast.FuncLit{Body: ast.Block{Stmts: []ast.Node{ast.Yield{X: nm("k")}, ast.Yield{X: ast.Binary{Op: "+", L: nm("k"), R: il(1)}}, ast.Yield{X: ast.Binary{Op: "+", L: nm("k"), R: il(2)}}}}}},
+			ast.Assign{Name: "acc", Value: ast.ArrayLit{}},
+			ast.For{Vars: []string{"a", "b", "c"}, Iters: []ast.Node{icall("fromto", il(0), il(3)), icall("gen"), icall("elems", ast.StrLit{V: "xyz"})},
+				Body: ast.Assign{Name: "acc", Value: ast.Binary{Op: "+", L: nm("acc"), R: ast.ArrayLit{Elems: []ast.Node{ast.ArrayLit{Elems: []ast.Node{nm("a"), nm("b"), nm("c")}}}}}}},
+			nm("acc"),
+		}}
+		defs = []ast.Node{ast.Assign{Name: "pf", Value: ast.FuncLit{Params: []string{"n"}, Body: body}}}
+		return defs, toa(icall("pf", il(int64(r.Range(0, 9))))), kind
 	case 4: // a closure generator reading a captured variable after each resume, while the body calls closure-carrying functions
 		kind = "closure-generator"
 		k := int64(r.Range(1, 5))
@@ -159,6 +188,14 @@ func c03Session(r *core.Rng, defs []ast.Node, call ast.Node) (stmts []ast.Node, 
 				ast.For{Vars: []string{"zq"}, Iters: []ast.Node{icall("fromto", il(0), il(2))}, Body: nm("zq")},
 				ast.For{Vars: []string{"zq", "zr"}, Iters: []ast.Node{icall("fromto", il(0), il(2)), icall("elems", ast.StrLit{V: "xy"})}, Body: nm("zq")},
 				ast.Assign{Name: dst, Value: call}}}}
+		}},
+		{"depth-random-a", atDepth(int64(r.Range(100, 420)))}, {"depth-random-b", atDepth(int64(r.Range(100, 420)))},
+		{"after-early-return-from-zip", func(dst string) []ast.Node {
+			return []ast.Node{
+				ast.Assign{Name: "zfirst", Value: ast.FuncLit{Params: []string{"k"}, Body: ast.For{Vars: []string{"zi", "zj"}, Iters: []ast.Node{icall("fromto", il(0), il(5)), icall("fromto", il(10), il(15))},
+					Body: ast.If{Cond: ast.Binary{Op: "==", L: nm("zi"), R: nm("k")}, Then: ast.Return{X: nm("zj")}}}}},
+				ast.Assign{Name: "zempty", Value: ast.FuncLit{Body: ast.For{Vars: []string{"zi", "zj"}, Iters: []ast.Node{icall("fromto", il(0), il(0)), icall("fromto", il(0), il(3))}, Body: nm("zi")}}},
+				ast.Block{Stmts: []ast.Node{icall("zfirst", il(1)), icall("zempty"), ast.Assign{Name: dst, Value: call}}}}
 		}},
 		{"as-argument", func(dst string) []ast.Node {
 			return []ast.Node{ast.Assign{Name: dst, Value: icall("zid", icall("zid", call))}}
@@ -363,7 +400,7 @@ func init() {
 			{Name: "placements", Count: countFn(1500, 150000), Run: c03Case},
 			{Name: "uninit", Count: countFn(300, 30000), Run: c03Uninit},
 		},
-		Floors: []core.Floor{{Key: "placements_compared", Quick: 12000, Thor: 1200000}, {Key: "tag:placement:", Quick: 16, Thor: 16}, {Key: "tag:function:", Quick: 6, Thor: 6}, {Key: "stack_growths", Quick: 3000, Thor: 300000}, {Key: "context_clone_reuse", Quick: 500, Thor: 50000}},
+		Floors: []core.Floor{{Key: "placements_compared", Quick: 12000, Thor: 1200000}, {Key: "tag:placement:", Quick: 19, Thor: 19}, {Key: "tag:function:", Quick: 8, Thor: 8}, {Key: "stack_growths", Quick: 3000, Thor: 300000}, {Key: "context_clone_reuse", Quick: 500, Thor: 50000}},
 	})
 	core.CaseSeconds["C03/placements"] = 1
 }
